@@ -17,6 +17,7 @@ RULES = {
     "C05.R10": "re-quantizing handlers compute on dequantized values and re-quantize with the operand qtype and documented scale",
     "C05.R12": "scale positivity: a handler that rescales by a scalar preserves the sign of the scale whenever another handler works on raw payloads assuming a positive scale",
     "C05.R13": "guard helpers mean what the rules assume: is_scalar = python number or plain 0-dim tensor; cannot_mm = grouped payload",
+    "C05.R14": "contractions (mm/bmm handlers): the raw-code route is well-typed for every combination of per-tensor / per-axis operands that reaches it: each scale lines up with a kept dimension of the output and is applied exactly once",
     "C05.R11": "rank beliefs (fixed-size unpacking of size()) are implied by the aten schema or an ndim guard",
 }
 
@@ -57,6 +58,8 @@ def run(chk):
     chk.ok("C05.R1", "registries", f"{len(hs['qbytes'])} QBytes handlers / {n_ops} ops, {len(hs['qbits'])} QBits handlers, {len(hs['qfunc'])} function wrappers extracted")
     recs = handrules.analyse(repo, chk.tier)
     handrules.emit(chk, recs, "C05")
+    from . import c07
+    c07.mm_handlers(chk, r1="C05.R14", r2="C05.R14", r5="C05.R14")
     chk.sample({"handlers": [h.name for h in hs["qbytes"]]})
     chk.assume(
         "aten schemas (operand roles) and algebraic classes of aten ops are a table in qv/hand.py and qv/kinds.py",
